@@ -46,6 +46,12 @@ def mulBasic (o : Ops G) (isO : G → Bool) (p : G) (k : Int) : Option G :=
   if k = 0 ∨ isO p then some o.zero else
   (recNaf (bitLen k.natAbs + 1) k.natAbs 2).map fun ds => signed o k (mulSigned o [p] o.zero ds)
 
+/-- ed_mul_dig: a single-digit scalar k < 2^w (w = RLC_DIG), binary NAF into int8_t naf[RLC_DIG + 1], the loop of ed_mul_basic
+    with the table [P]; no sign -/
+def mulDig (o : Ops G) (isO : G → Bool) (w : Nat) (p : G) (k : Nat) : Option G :=
+  if k = 0 ∨ isO p then some o.zero else
+  (recNaf (w + 1) k 2).map fun ds => mulSigned o [p] o.zero ds
+
 /-- ed_mul_lwnaf (ed_mul_naf_imp): width-w NAF of k mod r into int8_t naf[RLC_FP_BITS + 1], table of odd multiples (ed_tab) -/
 def mulLwnaf (o : Ops G) (isO : G → Bool) (par : Par) (p : G) (k : Int) : Option G :=
   if k = 0 ∨ isO p then some o.zero else
